@@ -96,11 +96,11 @@ fn search_dim<P: Coordinate>(rng: &mut Rng, stats: &mut Stats) {
             if v >= l && v >= r && (v > l || v > r || k == 0 || k == 2000) { hi = hi.max(refine(&c, comp, k as f64 / 2000.0, 1.0)); }
             if v <= l && v <= r && (v < l || v < r || k == 0 || k == 2000) { lo = lo.min(refine(&c, comp, k as f64 / 2000.0, -1.0)); }
         }
-        if lo < mn - tol || hi > mx + tol { stats.fail("C06", "bounding_box_does_not_contain_curve", &format!("{} axis={} box=[{},{}] curve range=[{},{}] tol={:e}", desc, comp, mn, mx, lo, hi, tol)); }
+        if lt(lo, mn - tol) || gt(hi, mx + tol) { stats.fail("C06", "bounding_box_does_not_contain_curve", &format!("{} axis={} box=[{},{}] curve range=[{},{}] tol={:e}", desc, comp, mn, mx, lo, hi, tol)); }
         // tight: each face touched (to the resolution of the refined scan)
         let ttol = tol.max(1e-9 * size);
-        if (lo - mn).abs() > ttol * 10.0 || (hi - mx).abs() > ttol * 10.0 { stats.fail("C06", "bounding_box_not_tight", &format!("{} axis={} box=[{},{}] curve range=[{},{}]", desc, comp, mn, mx, lo, hi)); }
-        if f.min().get(comp) > mn + tol || f.max().get(comp) < mx - tol { stats.fail("C06", "fast_box_does_not_contain_box", &format!("{} axis={}", desc, comp)); }
+        if gt((lo - mn).abs(), ttol * 10.0) || gt((hi - mx).abs(), ttol * 10.0) { stats.fail("C06", "bounding_box_not_tight", &format!("{} axis={} box=[{},{}] curve range=[{},{}]", desc, comp, mn, mx, lo, hi)); }
+        if gt(f.min().get(comp), mn + tol) || lt(f.max().get(comp), mx - tol) { stats.fail("C06", "fast_box_does_not_contain_box", &format!("{} axis={}", desc, comp)); }
     }
     for t in c.find_extremities() { if !(t > 0.0 && t <= 1.0) { stats.fail("C06", "extremity_out_of_range", &format!("{} t={}", desc, t)); } }
 }
